@@ -48,6 +48,11 @@ CHECKS = {
             'z3 proves split == flattened for each enumerated import layout on every database with <=2 rows per table; CrossHair confirms distinct non-empty prefixes for all ordered pairs of distinct import paths up to depth 2 (3 thorough) over a 3-word alphabet, and that imports are rejected exactly per the documented rules over 15x8 configurations.',
             'Trusted: lv/sqlsem.py, z3, CrossHair. Outside: C++ parser, import graphs beyond the layouts.',
             'DESIGN.md §3 C12', 'sqlsmt'),
+    'C14': ('other',
+            '(a) CrossHair symbolic execution of the real Concertina scheduler over symbolic DAGs, iteration groups, repetition counts and stop instants ("Confirmed over all paths"); (b) z3 equivalence of plans executed by the real ExecuteLogicaProgram with a symbolic sql_runner for different sets of requested predicates; counterexamples replayed on the real code',
+            'All 64 DAGs on 4 actions x iteration-group shapes x repetitions 1..3 (and stop instants) are confirmed to run every action after its prerequisites, non-iterated ones once, iterated ones round-robin the declared number of times, and to terminate; compiled @Ground/deep-recursion plans return the same table for a predicate whether asked alone or with others, never read a table before it is produced, and satisfy the shape invariant the scheduler proof assumes.',
+            'Trusted: CrossHair, z3, lv/sqlsem.py. Stubs: display functions, os/open for the stop file. Bound: 4 actions (6 for two groups), name assignments sampled (2 quick / 4 thorough).',
+            'DESIGN.md §3 C14', 'kern'),
     'C17': ('translation_validation',
             'histories of CLI-style runs executed by a symbolic statement interpreter (DROP/CREATE/ATTACH + SELECT) over a symbolic database file; each assertion is a z3 equivalence between stores/rows; sat models replayed on a real SQLite file',
             'For each catalogue program with grounded intermediates and each enumerated history of <=3 runs, z3 proves for every database content within the bound: dependant rows == program without @Ground; table of P == P alone; printing P writes nothing; re-runs return the same rows and leave the same tables.',
